@@ -39,20 +39,33 @@ def R(profile, n, execs, monitor, l1=False, **kw):
     return d
 
 
+def MC(*cfgs, thorough=None):
+    out = []
+    for c in cfgs:
+        out.append(dict(module="MC_Kanal", cfg=("MC_Kanal_%s.cfg" % c, "MC_Kanal_%s.cfg" % c)))
+    for c in (thorough or []):
+        out.append(dict(module="MC_Kanal", cfg=(None, "MC_Kanal_%s.cfg" % c)))
+    return out
+
+
+# L2 conformance stage (hook-level trace validation against Kanal.tla): (programs per capacity, executions each)
+L2Q, L2T = (50, 2), (600, 4)
+
 PLANS = {
-    "C01": dict(runs=[R("general", (250, 4000), (3, 6), "C01", True), R("sync", (150, 2000), (3, 6), "C01", True),
-                      R("async", (150, 2000), (3, 6), "C01", True)]),
-    "C02": dict(runs=[R("fifo", (300, 5000), (4, 8), "C02"), R("general", (150, 2000), (3, 5), "C02")]),
-    "C03": dict(runs=[R("general", (400, 8000), (3, 6), None, True), R("sync", (150, 2000), (3, 6), None, True),
-                      R("async", (150, 3000), (3, 6), None, True), R("timed", (150, 3000), (3, 6), None, True)]),
-    "C05": dict(runs=[R("general", (250, 4000), (3, 6), "C05", True), R("timed", (200, 3000), (3, 6), "C05", True),
-                      R("async", (200, 3000), (3, 6), "C05", True)]),
-    "C08": dict(runs=[R("capacity", (300, 5000), (3, 6), "C08", True), R("general", (150, 2000), (3, 5), "C08", True)]),
-    "C10": dict(runs=[R("close", (300, 5000), (3, 6), "C10", True), R("general", (150, 2000), (3, 5), "C10", True)]),
-    "C11": dict(runs=[R("disconnect", (300, 5000), (3, 6), "C11", True), R("general", (150, 2000), (3, 5), "C11", True)]),
-    "C12": dict(runs=[R("handles", (300, 5000), (3, 6), "C12", True)]),
-    "C13": dict(runs=[R("timed", (400, 6000), (4, 8), "C13", True)]),
-    "C19": dict(runs=[R("drain", (300, 5000), (4, 8), None, True)]),
+    "C01": dict(mc=MC("sync", "mixed"), runs=[R("general", (250, 4000), (3, 6), "C01", True), R("sync", (150, 2000), (3, 6), "C01", True),
+                      R("async", (150, 2000), (3, 6), "C01", True), R("chain", (100, 2000), (2, 6), "C01", True)]),
+    "C02": dict(mc=MC("sync", "mixed"), runs=[R("chain_s", (250, 4000), (3, 6), "C02", True), R("fifo", (250, 5000), (4, 8), "C02"), R("general", (150, 2000), (3, 5), "C02")]),
+    "C03": dict(mc=MC("mixed", "async"), runs=[R("general", (400, 8000), (3, 6), None, True), R("sync", (150, 2000), (3, 6), None, True),
+                      R("async", (150, 3000), (3, 6), None, True), R("timed", (150, 3000), (3, 6), None, True),
+                      R("chain", (150, 3000), (2, 6), None, True)]),
+    "C05": dict(mc=MC("timed", "async"), runs=[R("general", (250, 4000), (3, 6), "C05", True), R("timed", (200, 3000), (3, 6), "C05", True),
+                      R("async", (200, 3000), (3, 6), "C05", True), R("chain", (100, 2000), (2, 6), "C05", True)]),
+    "C08": dict(mc=MC("sync"), runs=[R("capacity", (300, 5000), (3, 6), "C08", True), R("general", (150, 2000), (3, 5), "C08", True)]),
+    "C10": dict(mc=MC("sync", "timed"), runs=[R("close", (300, 5000), (3, 6), "C10", True), R("general", (150, 2000), (3, 5), "C10", True)]),
+    "C11": dict(mc=MC("handles"), runs=[R("disconnect", (300, 5000), (3, 6), "C11", True), R("general", (150, 2000), (3, 5), "C11", True)]),
+    "C12": dict(mc=MC("handles"), runs=[R("handles", (300, 5000), (3, 6), "C12", True)]),
+    "C13": dict(mc=MC("timed"), runs=[R("timed", (400, 6000), (4, 8), "C13", True), R("chain", (150, 3000), (2, 6), "C13", True)]),
+    "C19": dict(mc=MC("mixed"), runs=[R("drain", (300, 5000), (4, 8), None, True), R("chain_s", (150, 3000), (2, 6), None, True)]),
 }
 
 
@@ -226,7 +239,8 @@ def run_check(prop, tier, seed, build=True):
         bt = vlib.build_harness()
         log("harness built in %.1fs" % bt)
     stats = dict(executions=0, events=0, stuck=0, budget=0, crashes=0, l0_states=0, l0_trans=0, l0_validated=0,
-                 l1_states=0, l1_trans=0, l1_validated=0, mc_states=0, mc_trans=0, samples=[], mc=[])
+                 l1_states=0, l1_trans=0, l1_validated=0, mc_states=0, mc_trans=0, samples=[], mc=[],
+                 l2_states=0, l2_trans=0, l2_validated=0, l2_events=0, drift=[])
     findings = []
     for mc in plan.get("mc", []):
         run_mc(mc, tier, wd, stats)
@@ -234,6 +248,8 @@ def run_check(prop, tier, seed, build=True):
         run_one_config(prop, run, tier, seed, wd, "r%d" % k, stats, findings)
         log("run %d (%s): executions=%d validated l0=%d l1=%d findings=%d" % (
             k, run["profile"], stats["executions"], stats["l0_validated"], stats["l1_validated"], len(findings)))
+    if plan.get("l2", True):
+        run_l2_stage(prop, tier, seed, wd, stats, findings)
     known = load_known()
     rc = 0
     nviol = 0
@@ -254,9 +270,11 @@ def run_check(prop, tier, seed, build=True):
         rc = 1
     wall = time.time() - t0
     cov = dict(
-        states=stats["mc_states"] + stats["l0_states"] + stats["l1_states"],
-        transitions=stats["mc_trans"] + stats["l0_trans"] + stats["l1_trans"],
-        traces_validated_against_impl=stats["l0_validated"] + stats["l1_validated"],
+        states=stats["mc_states"] + stats["l0_states"] + stats["l1_states"] + stats["l2_states"],
+        transitions=stats["mc_trans"] + stats["l0_trans"] + stats["l1_trans"] + stats["l2_trans"],
+        traces_validated_against_impl=stats["l0_validated"] + stats["l1_validated"] + stats["l2_validated"],
+        hook_traces_validated_l2=stats["l2_validated"], hook_events_validated_l2=stats["l2_events"],
+        drift=stats["drift"],
         samples=stats["samples"] or [dict(note="no execution recorded")],
         model_checking=stats["mc"],
         model_states=stats["mc_states"], model_transitions=stats["mc_trans"],
@@ -270,6 +288,49 @@ def run_check(prop, tier, seed, build=True):
     vlib.write_evidence(prop, tier, seed, cov, wall, nviol, ASSUME_COMMON + plan.get("assume", []))
     log("%s %s: executions=%d states=%d violations=%d wall=%.1fs" % (prop, tier, stats["executions"], cov["states"], nviol, wall))
     return rc
+
+
+def run_l2_stage(prop, tier, seed, wd, stats, findings):
+    """Impl -> spec at hook granularity: real executions must be behaviours of Kanal.tla (DRIFT if not)."""
+    ti = Q if tier == "quick" else T
+    n, ex = (L2Q, L2T)[ti]
+    for cap in (0, 1, 2, None):
+        rng = random.Random("%d/%s/l2/%s" % (seed, prop, cap))
+        programs = [gen.gen_program(rng, "l2", cap=cap) for _ in range(n)]
+        tag = "l2_%s" % ("u" if cap is None else cap)
+        pf = os.path.join(wd, tag + ".programs.ndjson")
+        with open(pf, "w") as f:
+            for p in programs:
+                f.write(json.dumps(p) + "\n")
+        r = vlib.run_harness(pf, wd, tag, execs=ex, seed=seed, raw=True)
+        if r["rc"] != 0:
+            begun, done = vlib.load_meta(r["meta"])
+            crashed = [x for x in begun if x not in done]
+            b = begun[max(crashed)] if crashed else dict(prog=0, seed=0)
+            findings.append(dict(kind="crash", prog=programs[b["prog"]], seed=b["seed"],
+                                 detail=dict(rc=r["rc"], what="harness process died during the L2 conformance stage")))
+            stats["crashes"] += 1
+            continue
+        begun, done = vlib.load_meta(r["meta"])
+        v = vlib.validate_trace("KanalTrace", "KanalTrace.cfg", r["raw"], wd, timeout=900, max_findings=2, splitter=vlib.split_raw)
+        stats["l2_states"] += v["distinct"]
+        stats["l2_trans"] += v["generated"]
+        stats["l2_validated"] += v["accepted"]
+        stats["l2_events"] += sum(d.get("events", 0) for d in done.values())
+        stats["executions"] += len(done)
+        for rj in v["rejected"]:
+            d = done.get(rj["x"], {})
+            prog = programs[d.get("prog", 0)]
+            stats["drift"].append(dict(cap=cap, seed=d.get("seed"), record=rj["record"][:300], program=prog))
+            log("DRIFT: execution %s (cap %s) leaves the implementation-shaped specification at: %s" % (rj["x"], cap, rj["record"][:200]))
+            # escalate: explore the deviating program under the verdict-level oracles
+            p2 = dict(prog)
+            run = R("drift", (1, 1), (60, 300), "ALL", True)
+            run_one_config(prop, run, tier, seed + 17, wd, "esc%d" % len(stats["drift"]), stats, findings, programs=[p2])
+        try:
+            os.remove(r["raw"])
+        except OSError:
+            pass
 
 
 def run_mc(mc, tier, wd, stats):
